@@ -11,7 +11,7 @@ CONSTANT Depth2
 Eacute == <<233>>
 \* operand values that can be written as literals and stored in documents
 JsonVals == {IntV(0), IntV(1), IntV(0 - 1), Num(1, 2), IntV(3), IntV(7), Num(0 - 5, 2),
-             Str(<<>>), Str(<<49>>), Str(ka), Str(Eacute), Str(<<97, 98>>),
+             Str(<<>>), Str(<<49>>), Str(ka), Str(Eacute), Str(<<97, 98>>), Str(<<65374>>), Str(<<128512>>),      \* U+FF5E sorts before U+1F600 by code point (not by UTF-16 unit)
              Bool(TRUE), Bool(FALSE),
              Arr(<<>>), Arr(<<IntV(1)>>), Arr(<<IntV(1), Str(ka)>>), Arr(<<IntV(0)>>),
              Obj(<<>>), Obj(<< <<ka, IntV(1)>> >>)}
